@@ -1,7 +1,7 @@
 /-
 Model of `api/indexer/indexer.go` (property C31). Core Lean only.
 
-State = the pebble store (`0x01 ++ be64 height -> executed block`, a finite map kept as an
+State = the pebble store (`0x02 ++ be64 height -> executed block`, a finite map kept as an
 association list in iterator order, i.e. ascending height) plus the three in-memory caches
 and `lastHeight`. The code is transcribed as it is at the pinned commit, including the
 single-height eviction (`height - window`, uint64 arithmetic).
@@ -48,6 +48,14 @@ def dbDel (h : Nat) : Store → Store
 /-- `DeleteRange(blockEntryKey lo, blockEntryKey hi)`: keys in `[lo, hi)` -/
 def dbDeleteRange (lo hi : Nat) (s : Store) : Store :=
   s.filter fun (k, _) => ¬ (lo ≤ k ∧ k < hi)
+
+/-- big-endian uint64 -/
+def be64 (n : Nat) : List UInt8 :=
+  [56, 48, 40, 32, 24, 16, 8, 0].map fun s => UInt8.ofNat ((n >>> s) % 256)
+
+/-- `blockEntryKey(height)`: `0x02 ++ be64 height` (`blockEntryByte = iota + 1` is the second constant of its block, so 2); byte-wise order of these keys = numeric order of
+the heights, which is what `Store` (sorted by height) relies on -/
+def blockEntryKey (h : Nat) : List UInt8 := 2 :: be64 h
 
 /-! ## the indexer -/
 
